@@ -13,8 +13,15 @@ import RotoV.Model.Unify
 namespace RotoV.Unify
 open RotoV.Gen
 
-inductive Kind | tv | iv | fv | rv
+/-- the kind a slot was created with; a record variable remembers the names of
+    the fields it was created with -/
+inductive Kind | tv | iv | fv | rv (names : List Nat)
   deriving DecidableEq, Repr, Inhabited
+
+def Kind.isRv : Kind → Bool | .rv _ => true | _ => false
+
+/-- the field names of a record, in order -/
+def fnames (fs : List (Nat × MTy)) : List Nat := fs.map (·.1)
 
 /-! well-formed types: every variable-like occurrence has the index of a slot
     of that kind (callers create `IntVar(j, _)` only with `fresh_int`, …) -/
@@ -23,7 +30,7 @@ def tyOk (K : Nat → Kind) : MTy → Bool
   | .var j => K j == .tv
   | .intVar j _ => K j == .iv
   | .floatVar j => K j == .fv
-  | .recordVar j fs => K j == .rv && fieldsOk K fs
+  | .recordVar j fs => (K j).isRv && fieldsOk K fs
   | .record fs => fieldsOk K fs
   | .func ps r => listOk K ps && tyOk K r
   | .name _ args => listOk K args
@@ -46,9 +53,11 @@ def SlotOk (d : Defs) (K : Nat → Kind) (D : Nat → Bool) (i : Nat) (t : MTy) 
       (if j = i then D i = sg else (D i = true → D j = true))) ∨
     (∃ n, t = .name n [] ∧ d.isInt n = true ∧ (D i = true → d.isSignedInt n = true))
   | .fv => (∃ j, t = .floatVar j) ∨ (∃ n, t = .name n [] ∧ d.isFloat n = true)
-  | .rv =>
-    (∃ j fs, t = .recordVar j fs) ∨ (∃ fs, t = .record fs) ∨
-    (∃ n args, t = .name n args ∧ (d.recordFields n).isSome = true)
+  | .rv N =>
+    (∃ j fs, t = .recordVar j fs ∧
+      (if j = i then (fnames fs).Perm N else ∃ N', K j = .rv N' ∧ N'.Perm N)) ∨
+    (∃ fs, t = .record fs ∧ (fnames fs).Perm N) ∨
+    (∃ n args nfs, t = .name n args ∧ d.recordFields n = some nfs ∧ (fnames nfs).Perm N)
 
 structure Inv (d : Defs) (K : Nat → Kind) (D : Nat → Bool) (s : Store) : Prop where
   slot : ∀ i t, s[i]? = some t → SlotOk d K D i t
@@ -159,7 +168,8 @@ def PlanOk (d : Defs) (K : Nat → Kind) (D : Nat → Bool) : Plan → Prop
   | .same _ => True
   | .bind v t => SlotOk d K D v t
   | .fail | .ice | .stuck => True
-  | .fieldsThenBind afs bfs v t => fieldsOk K afs = true ∧ fieldsOk K bfs = true ∧ SlotOk d K D v t
+  | .fieldsThenBind afs bfs v t =>
+    fieldsOk K afs = true ∧ fieldsOk K bfs = true ∧ ((fnames afs).Perm (fnames bfs) → SlotOk d K D v t)
   | .zip xs ys _ => listOk K xs = true ∧ listOk K ys = true
   | .zipThen xs ys x y _ => listOk K xs = true ∧ listOk K ys = true ∧ tyOk K x = true ∧ tyOk K y = true
 
@@ -204,8 +214,10 @@ theorem kind_of_tyOk_int {K : Nat → Kind} {v : Nat} {sg : Bool} (h : tyOk K (.
 theorem kind_of_tyOk_float {K : Nat → Kind} {v : Nat} (h : tyOk K (.floatVar v) = true) : K v = .fv := by
   simpa [tyOk] using h
 theorem kind_of_tyOk_rec {K : Nat → Kind} {v : Nat} {fs} (h : tyOk K (.recordVar v fs) = true) :
-    K v = .rv ∧ fieldsOk K fs = true := by
-  simpa [tyOk] using h
+    (∃ N, K v = .rv N) ∧ fieldsOk K fs = true := by
+  simp only [tyOk, Bool.and_eq_true] at h
+  refine ⟨?_, h.2⟩
+  cases hk : K v <;> simp_all [Kind.isRv]
 
 /-- `IntVar × Name` -/
 theorem plan_int_name {d : Defs} {K : Nat → Kind} {D : Nat → Bool} {s : Store}
@@ -282,12 +294,27 @@ theorem plan_var {d : Defs} {K : Nat → Kind} {D : Nat → Bool} {s : Store} {o
   · trivial
   · exact slot_tv hk ht
 
-theorem slot_rv {d : Defs} {K : Nat → Kind} {D : Nat → Bool} {v : Nat} {t : MTy}
-    (hk : K v = .rv) (ht : tyOk K t = true)
-    (h : (∃ j fs, t = .recordVar j fs) ∨ (∃ fs, t = .record fs) ∨
-      (∃ n args, t = .name n args ∧ (d.recordFields n).isSome = true)) : SlotOk d K D v t := by
+theorem slot_rv {d : Defs} {K : Nat → Kind} {D : Nat → Bool} {v : Nat} {t : MTy} {N : List Nat}
+    (hk : K v = .rv N) (ht : tyOk K t = true)
+    (h : (∃ j fs, t = .recordVar j fs ∧
+        (if j = v then (fnames fs).Perm N else ∃ N', K j = .rv N' ∧ N'.Perm N)) ∨
+      (∃ fs, t = .record fs ∧ (fnames fs).Perm N) ∨
+      (∃ n args nfs, t = .name n args ∧ d.recordFields n = some nfs ∧ (fnames nfs).Perm N)) :
+    SlotOk d K D v t := by
   refine ⟨ht, ?_⟩
   rw [hk]; exact h
+
+/-- the fields a root record variable holds are (a permutation of) the ones it was created with -/
+theorem root_fields {d : Defs} {K : Nat → Kind} {D : Nat → Bool} {r : Nat} {fs : List (Nat × MTy)}
+    {N : List Nat} (h : SlotOk d K D r (.recordVar r fs)) (hk : K r = .rv N) : (fnames fs).Perm N := by
+  have h2 := h.2
+  rw [hk] at h2
+  rcases h2 with ⟨j, fs', he, hj⟩ | ⟨fs', he, _⟩ | ⟨n, args, nfs, he, _⟩
+  · injection he with h1 h2'
+    subst h1; subst h2'
+    simpa using hj
+  · cases he
+  · cases he
 
 /-- every arm of `match (a, b)` asks only for admissible work -/
 theorem plan_ok {d : Defs} {K : Nat → Kind} {D : Nat → Bool} {s : Store}
@@ -354,29 +381,36 @@ theorem plan_ok {d : Defs} {K : Nat → Kind} {D : Nat → Bool} {s : Store}
       | name n args => simp only [planArms]; exact plan_float_name ha hb
       | _ => simp only [planArms]; trivial
     | recordVar v fs =>
-      obtain ⟨hk, hfs⟩ := kind_of_tyOk_rec ha
+      obtain ⟨⟨N, hk⟩, hfs⟩ := kind_of_tyOk_rec ha
+      have hNa := root_fields (hra v rfl).2 hk
       cases b with
       | var w => simp only [planArms]; exact plan_var (kind_of_tyOk_var hb) ha
       | recordVar w gs =>
         simp only [planArms]
-        exact ⟨hfs, (kind_of_tyOk_rec hb).2, slot_rv hk hb (Or.inl ⟨w, gs, rfl⟩)⟩
+        obtain ⟨⟨M, hkw⟩, hgs⟩ := kind_of_tyOk_rec hb
+        have hMb := root_fields (hrb w rfl).2 hkw
+        refine ⟨hfs, hgs, fun hp => slot_rv hk hb (Or.inl ⟨w, gs, rfl, ?_⟩)⟩
+        by_cases hwv : w = v
+        · subst hwv; rw [if_pos rfl]; exact hp.symm.trans hNa
+        · rw [if_neg hwv]; exact ⟨M, hkw, hMb.symm.trans (hp.symm.trans hNa)⟩
       | record gs =>
         simp only [planArms]
-        exact ⟨hfs, by simpa [tyOk] using hb, slot_rv hk hb (Or.inr (Or.inl ⟨gs, rfl⟩))⟩
+        exact ⟨hfs, by simpa [tyOk] using hb, fun hp => slot_rv hk hb (Or.inr (Or.inl ⟨gs, rfl, hp.symm.trans hNa⟩))⟩
       | name n args =>
         simp only [planArms]
         cases hr : d.recordFields n with
         | none => trivial
         | some nfs =>
-          exact ⟨hfs, hd n nfs hr, slot_rv hk hb (Or.inr (Or.inr ⟨n, args, rfl, by simp [hr]⟩))⟩
+          exact ⟨hfs, hd n nfs hr, fun hp => slot_rv hk hb (Or.inr (Or.inr ⟨n, args, nfs, rfl, hr, hp.symm.trans hNa⟩))⟩
       | _ => simp only [planArms]; trivial
     | record fs =>
       cases b with
       | var w => simp only [planArms]; exact plan_var (kind_of_tyOk_var hb) ha
       | recordVar w gs =>
         simp only [planArms]
-        obtain ⟨hk, hgs⟩ := kind_of_tyOk_rec hb
-        exact ⟨by simpa [tyOk] using ha, hgs, slot_rv hk ha (Or.inr (Or.inl ⟨fs, rfl⟩))⟩
+        obtain ⟨⟨M, hk⟩, hgs⟩ := kind_of_tyOk_rec hb
+        have hMb := root_fields (hrb w rfl).2 hk
+        exact ⟨by simpa [tyOk] using ha, hgs, fun hp => slot_rv hk ha (Or.inr (Or.inl ⟨fs, rfl, hp.trans hMb⟩))⟩
       | _ => simp only [planArms]; trivial
     | func ps r =>
       cases b with
@@ -393,11 +427,12 @@ theorem plan_ok {d : Defs} {K : Nat → Kind} {D : Nat → Bool} {s : Store}
       | floatVar w => simp only [planArms]; exact plan_float_name hb ha
       | recordVar w gs =>
         simp only [planArms]
-        obtain ⟨hk, hgs⟩ := kind_of_tyOk_rec hb
+        obtain ⟨⟨M, hk⟩, hgs⟩ := kind_of_tyOk_rec hb
+        have hMb := root_fields (hrb w rfl).2 hk
         cases hr : d.recordFields n with
         | none => trivial
         | some nfs =>
-          exact ⟨hgs, hd n nfs hr, slot_rv hk ha (Or.inr (Or.inr ⟨n, args, rfl, by simp [hr]⟩))⟩
+          exact ⟨hgs, hd n nfs hr, fun hp => slot_rv hk ha (Or.inr (Or.inr ⟨n, args, nfs, rfl, hr, hp.symm.trans hMb⟩))⟩
       | name m args' =>
         simp only [planArms]
         split
@@ -405,6 +440,82 @@ theorem plan_ok {d : Defs} {K : Nat → Kind} {D : Nat → Bool} {s : Store}
         · simp only [tyOk] at ha hb
           exact ⟨ha, hb⟩
       | _ => simp only [planArms]; trivial
+
+theorem takeField_perm {n : Nat} : ∀ {fs : List (Nat × MTy)} {t : MTy} {rest : List (Nat × MTy)},
+    takeField n fs = some (t, rest) → (fnames fs).Perm (n :: fnames rest) := by
+  intro fs
+  induction fs with
+  | nil => intro t rest h; simp [takeField] at h
+  | cons f fs ih =>
+    intro t rest h
+    obtain ⟨m, u⟩ := f
+    simp only [takeField] at h
+    by_cases hm : (m == n) = true
+    · simp only [hm, ↓reduceIte, Option.some.injEq, Prod.mk.injEq] at h
+      obtain ⟨_, h2⟩ := h
+      subst h2
+      have : m = n := by simpa using hm
+      subst this
+      exact List.Perm.refl _
+    · simp only [hm, Bool.false_eq_true, ↓reduceIte] at h
+      cases ht : takeField n fs with
+      | none => simp [ht] at h
+      | some p =>
+        obtain ⟨u', rest'⟩ := p
+        simp only [ht, Option.some.injEq, Prod.mk.injEq] at h
+        obtain ⟨_, h2⟩ := h
+        subst h2
+        have := ih ht
+        simp only [fnames, List.map_cons] at this ⊢
+        exact (List.Perm.cons m this).trans (List.Perm.swap n m _)
+
+/-- a successful `unify_fields` loop has found every name of `a` in `b` -/
+theorem unifyFieldsRest_perm (d : Defs) : ∀ (fuel : Nat) (s : Store) (afs bfs : List (Nat × MTy)) (u : Unit)
+    (s' : Store), unifyFieldsRest d fuel s afs bfs = .ok u s' →
+    ∃ rest : List Nat, (fnames bfs).Perm (fnames afs ++ rest) := by
+  intro fuel
+  induction fuel with
+  | zero => intro s afs bfs u s' h; simp [unifyFieldsRest] at h
+  | succ fuel ih =>
+    intro s afs bfs u s' h
+    cases afs with
+    | nil => exact ⟨fnames bfs, by simp [fnames]⟩
+    | cons f arest =>
+      obtain ⟨n, at_⟩ := f
+      simp only [unifyFieldsRest] at h
+      cases ht : takeField n bfs with
+      | none => simp [ht] at h
+      | some p =>
+        obtain ⟨bt, brest⟩ := p
+        simp only [ht] at h
+        cases hu : unify d fuel s at_ bt with
+        | ok t1 s1 =>
+          simp only [hu] at h
+          obtain ⟨rest, hr⟩ := ih s1 arest brest u s' h
+          refine ⟨rest, ?_⟩
+          have h1 := takeField_perm ht
+          simp only [fnames, List.map_cons, List.cons_append] at h1 hr ⊢
+          exact h1.trans (List.Perm.cons n hr)
+        | fail s1 => simp [hu] at h
+        | ice => simp [hu] at h
+        | stuck => simp [hu] at h
+
+theorem unifyFields_perm (d : Defs) (fuel : Nat) (s : Store) (afs bfs : List (Nat × MTy)) (u : Unit)
+    (s' : Store) (h : unifyFields d fuel s afs bfs = .ok u s') : (fnames afs).Perm (fnames bfs) := by
+  cases fuel with
+  | zero => simp [unifyFields] at h
+  | succ fuel =>
+    simp only [unifyFields] at h
+    by_cases hl : (afs.length != bfs.length) = true
+    · simp [hl] at h
+    · simp only [hl, Bool.false_eq_true, ↓reduceIte] at h
+      obtain ⟨rest, hr⟩ := unifyFieldsRest_perm d fuel s afs bfs u s' h
+      have hlen := hr.length_eq
+      simp only [fnames, List.length_map, List.length_append] at hlen
+      have hll : afs.length = bfs.length := by simpa using hl
+      have : rest = [] := List.eq_nil_of_length_eq_zero (by omega)
+      subst this
+      simpa using hr.symm
 
 /-- the store a unification leaves behind (success or mismatch) satisfies the invariant -/
 def ResInv {α : Type} (d : Defs) (K : Nat → Kind) (D : Nat → Bool) : Res α → Prop
@@ -454,7 +565,9 @@ theorem unify_preserves (d : Defs) (K : Nat → Kind) (D : Nat → Bool) (hd : D
             have := ihF s afs bfs hI h1 h2
             simp only
             cases hf : unifyFields d fuel s afs bfs with
-            | ok u s' => rw [hf] at this; exact Inv.set this v t (fun _ => h3)
+            | ok u s' =>
+              have hperm := unifyFields_perm d fuel s afs bfs u s' hf
+              rw [hf] at this; exact Inv.set this v t (fun _ => h3 hperm)
             | fail s' => rw [hf] at this; exact this
             | ice => trivial
             | stuck => trivial
@@ -535,9 +648,9 @@ def Resolved (d : Defs) (K : Nat → Kind) (D : Nat → Bool) (i : Nat) (t : MTy
     (∃ j sg, t = .intVar j sg ∧ (D i = true → sg = true)) ∨
     (∃ n, t = .name n [] ∧ d.isInt n = true ∧ (D i = true → d.isSignedInt n = true))
   | .fv => (∃ j, t = .floatVar j) ∨ (∃ n, t = .name n [] ∧ d.isFloat n = true)
-  | .rv =>
-    (∃ j fs, t = .recordVar j fs) ∨ (∃ fs, t = .record fs) ∨
-    (∃ n args, t = .name n args ∧ (d.recordFields n).isSome = true)
+  | .rv N =>
+    (∃ j fs, t = .recordVar j fs ∧ (fnames fs).Perm N) ∨ (∃ fs, t = .record fs ∧ (fnames fs).Perm N) ∨
+    (∃ n args nfs, t = .name n args ∧ d.recordFields n = some nfs ∧ (fnames nfs).Perm N)
 
 theorem find_resolved {d K D s} (h : Inv d K D s) : ∀ fuel i t, find s fuel i = some t →
     Resolved d K D i t := by
@@ -566,7 +679,11 @@ theorem find_resolved {d K D s} (h : Inv d K D s) : ∀ fuel i t, find s fuel i 
           · subst he; simp [MTy.varIndex] at hv
           · exact Or.inr h2
         | fv => rw [hk] at h2; exact h2
-        | rv => rw [hk] at h2; exact h2
+        | rv N =>
+          rw [hk] at h2
+          rcases h2 with ⟨j, fs, he, _⟩ | h2
+          · subst he; simp [MTy.varIndex] at hv
+          · exact Or.inr h2
       | some j =>
         simp only [hv] at hf
         by_cases hji : j = i
@@ -587,7 +704,15 @@ theorem find_resolved {d K D s} (h : Inv d K D s) : ∀ fuel i t, find s fuel i 
               exact Or.inl ⟨j', sg, rfl, fun hd => by rw [hj] at hd; exact hd⟩
             · exact Or.inr h2
           | fv => rw [hk] at h2; exact h2
-          | rv => rw [hk] at h2; exact h2
+          | rv N =>
+            rw [hk] at h2
+            rcases h2 with ⟨j', fs, he, hj⟩ | h2
+            · subst he
+              simp only [MTy.varIndex, Option.some.injEq] at hv
+              subst hv
+              simp only [↓reduceIte] at hj
+              exact Or.inl ⟨j', fs, rfl, hj⟩
+            · exact Or.inr h2
         · have hne : (j != i) = true := by simpa using hji
           simp only [hne, ↓reduceIte] at hf
           -- a pointer: the kind and the demand are inherited by the target
@@ -619,16 +744,19 @@ theorem find_resolved {d K D s} (h : Inv d K D s) : ∀ fuel i t, find s fuel i 
               rw [hkj] at hrec
               exact hrec
             · subst he; simp [MTy.varIndex] at hv
-          | rv =>
+          | rv N =>
             rw [hk] at h2
-            rcases h2 with ⟨j', fs, he⟩ | ⟨fs, he⟩ | ⟨n, args, he, _⟩
+            rcases h2 with ⟨j', fs, he, hj⟩ | ⟨fs, he, _⟩ | ⟨n, args, nfs, he, _⟩
             · subst he
               simp only [MTy.varIndex, Option.some.injEq] at hv
               subst hv
-              have hkj : K j' = .rv := by
-                have := hslot.1; simp only [tyOk, Bool.and_eq_true, beq_iff_eq] at this; exact this.1
+              rw [if_neg hji] at hj
+              obtain ⟨N', hkj, hperm⟩ := hj
               rw [hkj] at hrec
-              exact hrec
+              rcases hrec with ⟨j2, fs2, he2, hp2⟩ | ⟨fs2, he2, hp2⟩ | ⟨n2, args2, nfs2, he2, hr2, hp2⟩
+              · exact Or.inl ⟨j2, fs2, he2, hp2.trans hperm⟩
+              · exact Or.inr (Or.inl ⟨fs2, he2, hp2.trans hperm⟩)
+              · exact Or.inr (Or.inr ⟨n2, args2, nfs2, he2, hr2, hp2.trans hperm⟩)
             · subst he; simp [MTy.varIndex] at hv
             · subst he; simp [MTy.varIndex] at hv
 
@@ -652,7 +780,10 @@ def Op.kinds : List Op → List Kind
 def kindOf (ops : List Op) (j : Nat) : Kind := (Op.kinds ops)[j]?.getD .tv
 
 def Op.ok (K : Nat → Kind) : Op → Bool
-  | .fresh _ fs => fieldsOk K fs
+  | .fresh k fs =>
+    fieldsOk K fs && (match k with
+      | .rv N => decide (N = fnames fs)   -- a record variable is created with the names of its fields
+      | _ => true)
   | .unify a b => tyOk K a && tyOk K b
   | .mark t => tyOk K t
 
@@ -666,7 +797,7 @@ def freshTy (k : Kind) (n : Nat) (fs : List (Nat × MTy)) : MTy :=
   | .tv => .var n
   | .iv => .intVar n false
   | .fv => .floatVar n
-  | .rv => .recordVar n fs
+  | .rv _ => .recordVar n fs
 
 def step (d : Defs) (fuel : Nat) (st : St) : Op → St
   | .fresh k fs => { st with s := st.s ++ [freshTy k st.s.length fs] }
@@ -697,7 +828,7 @@ theorem SlotOk.mono {d : Defs} {K : Nat → Kind} {D : Nat → Bool} {i k : Nat}
   cases hk : K k with
   | tv => trivial
   | fv => rw [hk] at h2; exact h2
-  | rv => rw [hk] at h2; exact h2
+  | rv N => rw [hk] at h2; exact h2
   | iv =>
     rw [hk] at h2
     simp only [if_neg hki]
@@ -731,7 +862,7 @@ theorem step_preserves (d : Defs) (fuel : Nat) (K : Nat → Kind) (hd : DefsOk d
           simp only [Nat.sub_self, List.getElem?_cons_zero, Option.some.injEq] at hi
           subst hi
           have hDf := hI.fresh st.s.length (Nat.le_refl _)
-          simp only [Op.ok] at hop
+          simp only [Op.ok, Bool.and_eq_true] at hop
           cases k with
           | tv => exact ⟨by simp [freshTy, tyOk, hkk], by rw [hkk]; trivial⟩
           | iv =>
@@ -742,10 +873,11 @@ theorem step_preserves (d : Defs) (fuel : Nat) (K : Nat → Kind) (hd : DefsOk d
             refine ⟨by simp [freshTy, tyOk, hkk], ?_⟩
             rw [hkk]
             exact Or.inl ⟨st.s.length, rfl⟩
-          | rv =>
-            refine ⟨by simp [freshTy, tyOk, hkk, hop], ?_⟩
+          | rv N =>
+            have hN : N = fnames fs := by simpa using hop.2
+            refine ⟨by simp [freshTy, tyOk, hkk, hop.1, Kind.isRv], ?_⟩
             rw [hkk]
-            exact Or.inl ⟨st.s.length, fs, rfl⟩
+            exact Or.inl ⟨st.s.length, fs, rfl, by simp [hN]⟩
         · have : st.s.length + 1 ≤ i := by omega
           rw [List.getElem?_eq_none (by simp; omega)] at hi
           cases hi
